@@ -191,10 +191,10 @@ Definition wf_tx_packet (l : list N) : Prop :=
   (exists p payload, In p data_pid_bytes /\ Forall (fun b => b < 256) payload /\ l = tx_wire p payload).
 
 Definition mem_N (x : N) (l : list N) : bool := existsb (N.eqb x) l.
-Fixpoint list_eqb (a b : list N) : bool :=
+Fixpoint c20_list_eqb (a b : list N) : bool :=
   match a, b with
   | [], [] => true
-  | x :: a', y :: b' => (x =? y) && list_eqb a' b'
+  | x :: a', y :: b' => (x =? y) && c20_list_eqb a' b'
   | _, _ => false
   end.
 Definition is_hs_packetb (l : list N) : bool :=
@@ -205,7 +205,7 @@ Definition is_data_packetb (l : list N) : bool :=
       let n := (length rest - 2)%nat in
       let payload := firstn n rest in
       mem_N p data_pid_bytes && Nat.leb 2 (length rest) && forallb (fun b => b <? 256) payload
-      && list_eqb (skipn n rest) [crc16_usb payload mod 256; crc16_usb payload / 256]
+      && c20_list_eqb (skipn n rest) [crc16_usb payload mod 256; crc16_usb payload / 256]
   | [] => false
   end.
 Definition wf_tx_packetb (l : list N) : bool := is_hs_packetb l || is_data_packetb l.
